@@ -171,21 +171,21 @@ func short(id []byte) string {
 
 func drawAmount(t *rapid.T, cur uint64) uint64 {
 	switch rapid.IntRange(0, 9).Draw(t, "amtClass") {
-	case 0:
-		return obMinOrder - 1
-	case 1, 2:
+	case 0, 1:
 		return obMinOrder
-	case 3:
+	case 2:
 		return obMinOrder + 1
-	case 4:
+	case 3:
 		return obHuge
-	case 5:
+	case 4:
 		if cur > obMinOrder {
 			return cur - 1
 		}
 		return cur + 1
-	case 6:
+	case 5:
 		return cur + 1
+	case 9:
+		return obMinOrder - 1
 	default:
 		return uint64(rapid.IntRange(obMinOrder, 40_000).Draw(t, "amt"))
 	}
@@ -214,7 +214,7 @@ func (m *obModel) pickOrder(t *rapid.T, c uint64) (id []byte, ord *obOrder) {
 func (m *obModel) genInstructions(t *rapid.T, c uint64, deadline uint64, allowDup bool) (*lib.Orders, string) {
 	o := &lib.Orders{}
 	var d []string
-	n := rapid.IntRange(0, 3).Draw(t, "nInstr")
+	n := rapid.IntRange(1, 3).Draw(t, "nInstr")
 	lock := func(id []byte, b int) {
 		o.LockOrders = append(o.LockOrders, &lib.LockOrder{OrderId: id, ChainId: c, BuyerReceiveAddress: obBuyer(b), BuyerSendAddress: obBuyer(b), BuyerChainDeadline: deadline})
 		d = append(d, fmt.Sprintf("lock %s->b%d", short(id), b))
@@ -268,11 +268,15 @@ func (m *obModel) genInstructions(t *rapid.T, c uint64, deadline uint64, allowDu
 				closeO(id)
 			}
 		default:
+			first, second := closeO, reset // an order that was already reset once is closed next, a fresh lock is reset first
+			if !strings.Contains(ord.trail, "R") {
+				first, second = reset, closeO
+			}
 			switch {
-			case r < 40:
-				closeO(id)
+			case r < 55:
+				first(id)
 			case r < 78:
-				reset(id)
+				second(id)
 			case r < 86: // lock of an already locked order by somebody else
 				lock(id, (ord.buyer+1)%4)
 			case r < 93: // reset + close conflict
@@ -440,7 +444,7 @@ func TestC20OrderBook(t *testing.T) {
 		if err := checkOrderBookState(c, m); err != nil {
 			t.Fatalf("genesis: %v", err)
 		}
-		nBlocks := rapid.IntRange(6, 16).Draw(t, "blocks")
+		nBlocks := rapid.IntRange(8, 16).Draw(t, "blocks")
 		sawConflict, sawHuge, sawC2, sawOwn := false, false, false, false
 		for b := 0; b < nBlocks; b++ {
 			h := c.Height()
@@ -455,7 +459,7 @@ func TestC20OrderBook(t *testing.T) {
 			var descs []string
 			nTx := rapid.IntRange(0, 3).Draw(t, "nTx")
 			certAt := -1
-			if rapid.IntRange(0, 9).Draw(t, "c2cert") < 6 {
+			if rapid.IntRange(0, 9).Draw(t, "c2cert") < 8 {
 				certAt = rapid.IntRange(0, nTx).Draw(t, "certAt")
 			}
 			for i := 0; i <= nTx; i++ {
@@ -564,7 +568,7 @@ func TestC20OrderBook(t *testing.T) {
 			// own-committee instructions certified with this block (validated certificates only: CheckBasic passes)
 			spec := chainsim.BlockSpec{Txs: txs}
 			ownDesc := ""
-			if rapid.IntRange(0, 9).Draw(t, "ownInstr") < 6 {
+			if rapid.IntRange(0, 9).Draw(t, "ownInstr") < 8 {
 				instr, d := m.genInstructions(t, 1, h+60, false)
 				if e := instr.CheckBasic(); e != nil {
 					t.Fatalf("generator produced an own-committee instruction set that fails CheckBasic: %v", e)
